@@ -83,6 +83,28 @@ func init() {
 		return Val{T: app("errors_is", args[0].T, args[1].T)}
 	}
 	externWrites["errors.Is"] = noWrites
+	// errors.As(err, target): unconstrained verdict; on success *target is set to some error of the chain
+	externs["errors.As"] = func(f *Frame, b *ssa.BasicBlock, in *ssa.Call, args []Val, st *State, g string) Val {
+		e := f.e
+		e.note("assumed contract: errors.As returns an unconstrained verdict (false for a nil error) and stores an unconstrained value through target; no other effect")
+		res := e.freshConst(hname(f, in, "as"), "Bool")
+		e.assume(implies(eq(app("i_tag", args[0].T), "0"), not(res)))
+		if in != nil {
+			if mi, ok := in.Call.Args[1].(*ssa.MakeInterface); ok {
+				if pt, ok := mi.X.Type().Underlying().(*types.Pointer); ok {
+					h := e.ptrHeap(pt.Elem())
+					tv := f.val(mi.X)
+					nv := e.freshConst(hname(f, in, "as_target"), e.sortOf(pt.Elem()))
+					f.typeInv(nv, pt.Elem())
+					f.setHeap(st, h, sto(st.H(h), tv.T, ite(res, nv, sel(st.H(h), tv.T))))
+					return Val{T: res}
+				}
+			}
+		}
+		st.havocAll()
+		return Val{T: res}
+	}
+	externWrites["errors.As"] = noWrites
 	externs["errors.New"] = func(f *Frame, b *ssa.BasicBlock, in *ssa.Call, args []Val, st *State, g string) Val {
 		e := f.e
 		e.note("assumed contract: errors.New returns a fresh non-nil error")
